@@ -1,28 +1,44 @@
 #!/usr/bin/env python3
 """./seedreport.py — for every filed seed: apply it to /repo, run the DEDUCTIVE side of its property's check alone
 (--no-bounded), undo it; record which obligations stop being discharged.  Writes seeded/REPORT.md."""
-import glob, json, os, subprocess
+import glob, json, os, subprocess, sys
+only = set(sys.argv[1:])
 rows = []
+
+
+def row(m, sat, unk, nsat, nunk, s):
+    bounded = [d['obligation'] for d in m['check_run']['first_failed_obligations'] if '/bounded/' in (d['obligation'] or '')]
+    return (m['seed'], m['property'], m['breaks'], 'yes' if m['check_run']['detected'] else 'NO',
+            (f"{nsat} obligation(s) fail definitely, e.g. `{sat[0]}`" if sat else (f"{nunk} obligation(s) no longer discharged (undecided), e.g. `{unk[0]}`" if unk else ('function left the encodable subset: ' + ', '.join(s['undecided_functions']) if s['undecided_functions'] else 'not noticed'))),
+            '`' + bounded[0] + '`' if bounded else ('(not needed)' if sat else '-'))
+
+
 for f in sorted(glob.glob('seeded/*/meta.json')):
     m = json.load(open(f))
     sid, prop = m['seed'], m['property']
     patch = os.path.realpath(f'seeded/{sid}/patch.diff')
-    subprocess.run(['git', '-C', '/repo', 'apply', patch], check=True)
+    if only and sid not in only and 'deductive' in m:
+        dd = m['deductive']
+        sat, unk = dd['definitely_failing_obligations'], dd['undischarged_obligations']
+        nsat, nunk = dd['n_sat'], dd['n_unknown']
+        s = {'undecided_functions': dd['functions_outside_the_subset_after_the_change']}
+        rows.append(row(m, sat, unk, nsat, nunk, s))
+        continue
+    wt = f'/tmp/seedwt-{sid}'
+    subprocess.run(['git', '-C', '/repo', 'worktree', 'add', '-q', '--detach', wt], check=True)
     try:
-        r = subprocess.run(['./check', prop, '--no-bounded', '--summary', f'/tmp/seedsum-{sid}.json'], capture_output=True, text=True, timeout=3000)
+        subprocess.run(['git', '-C', wt, 'apply', patch], check=True)
+        r = subprocess.run(['./check', prop, '--no-bounded', '--summary', f'/tmp/seedsum-{sid}.json'], capture_output=True, text=True, timeout=3000, env=dict(os.environ, VERIF_REPO=wt))
     finally:
-        subprocess.run(['git', '-C', '/repo', 'checkout', '--', '.'], check=True)
+        subprocess.run(['git', '-C', '/repo', 'worktree', 'remove', '--force', wt], check=True)
     s = json.load(open(f'/tmp/seedsum-{sid}.json')) if os.path.exists(f'/tmp/seedsum-{sid}.json') else {'not_discharged': [], 'undecided_functions': [], 'crashes': ['no summary']}
     sat = [o['name'] for o in s['not_discharged'] if o['status'] == 'sat']
     unk = [o['name'] for o in s['not_discharged'] if o['status'] != 'sat']
     m['deductive'] = {'exit': r.returncode, 'definitely_failing_obligations': sat[:8], 'n_sat': len(sat), 'undischarged_obligations': unk[:8], 'n_unknown': len(unk),
                       'functions_outside_the_subset_after_the_change': s['undecided_functions'], 'crashes': s['crashes']}
     json.dump(m, open(f, 'w'), indent=1, default=repr)
-    bounded = [d['obligation'] for d in m['check_run']['first_failed_obligations'] if '/bounded/' in (d['obligation'] or '')]
-    rows.append((sid, prop, m['breaks'], 'yes' if m['check_run']['detected'] else 'NO',
-                 (f"{len(sat)} obligation(s) fail definitely, e.g. `{sat[0]}`" if sat else (f"{len(unk)} obligation(s) no longer discharged (undecided), e.g. `{unk[0]}`" if unk else ('function left the encodable subset: ' + ', '.join(s['undecided_functions']) if s['undecided_functions'] else 'not noticed'))),
-                 '`' + bounded[0] + '`' if bounded else ('(not needed)' if sat else '-')))
-    print(sid, len(sat), len(unk), s['undecided_functions'])
+    rows.append(row(m, sat, unk, len(sat), len(unk), s))
+    print(sid, len(sat), len(unk), s['undecided_functions'], flush=True)
 with open('seeded/REPORT.md', 'w') as out:
     out.write('# Seeded property-breaking changes and the checks that catch them\n\nEach change was written by a fresh sub-agent that saw only the property text and a scratch worktree; each compiles and passes the 107 pinned tests.\n`seedreport.py` regenerates this table (deductive side alone, then the full check recorded in meta.json).\n\n')
     out.write('| seed | property | what it breaks | caught | deductive side (obligations of the changed tree) | bounded layer |\n|---|---|---|---|---|---|\n')
